@@ -98,17 +98,6 @@ Definition thr_ok (K : thr) : Prop :=
 Lemma eps_pos : 0 < eps Rops.
 Proof. cbn. apply Rinv_0_lt_compat. lra. Qed.
 
-(* the twist-form logarithm in the general branch *)
-Lemma vex_log_general r00 r01 r02 r10 r11 r12 r20 r21 r22 :
-  let Rm := ((r00,r01,r02),(r10,r11,r12),(r20,r21,r22)) in
-  let th := log_theta Rops Rm in
-  sin th <> 0 ->
-  vex3 Rops (log_general Rops Rm) =
-  ((r21 - r12)/2/sin th*th, (r02 - r20)/2/sin th*th, (r10 - r01)/2/sin th*th).
-Proof.
-  intros Rm th Hs. subst Rm. unfold log_general. fold th. generalize dependent th. intros th Hs.
-  c03_simpl. tuple_eq ltac:(field; exact Hs).
-Qed.
 
 
 
@@ -166,65 +155,6 @@ Proof.
   c03_simpl. tuple_eq ltac:(ring).
 Qed.
 
-Theorem explog_so3_general (K : thr) (Rm : M33 R) :
-  thr_ok K -> SO3 Rm ->
-  trlog_so3_branch Rops K Rm = BrGen ->
-  thv Rops (k_unit K) < log_theta Rops Rm ->
-  trexp_so3 Rops K (trlog_so3_tw Rops K Rm) = Ok Rm /\
-  norm3 Rops (trlog_so3_tw Rops K Rm) = log_theta Rops Rm /\ 0 < log_theta Rops Rm <= PI.
-Proof.
-  intros (Kz & Kzu & Kh & Ke & Kiu & Kz1 & Kiu1) HR Hbr Hth.
-  destruct Rm as [[[[r00 r01] r02] [[r10 r11] r12]] [[r20 r21] r22]]. unfold M33, V3 in *.
-  unfold trlog_so3_tw. rewrite Hbr.
-  pose proof (so3_vex_normsq _ _ _ _ _ _ _ _ _ HR) as Hn. cbv zeta in Hn.
-  set (c := (r00 + r11 + r22 - 1) / 2) in *.
-  match type of Hth with _ < ?t => assert (Hthe : t = acos c) end.
-  { unfold log_theta, c. c03_simpl. f_equal; try field. }
-  rewrite Hthe in Hth. set (th := acos c) in *.
-  pose proof eps_pos as He.
-  assert (Hc2 : c*c <= 1).
-  { pose proof (Rle_0_sqr ((r21 - r12)/2)). pose proof (Rle_0_sqr ((r02 - r20)/2)). pose proof (Rle_0_sqr ((r10 - r01)/2)).
-    unfold Rsqr in *. lra. }
-  assert (Hc : -1 <= c <= 1) by nra.
-  assert (Hth0 : 0 < th).
-  { unfold thv in Hth. cbn [of_Z mul eps Rops] in Hth. cbn [eps Rops] in He. nra. }
-  assert (Hc1 : c < 1).
-  { destruct (Req_dec c 1) as [E|E]; [|lra]. exfalso. unfold th in Hth0. rewrite E, acos_1 in Hth0. lra. }
-  assert (Hcm1 : -1 < c).
-  { destruct (Req_dec c (-1)) as [E|E]; [|lra]. exfalso.
-    unfold trlog_so3_branch in Hbr.
-    destruct (iseye33 Rops K _); [discriminate|].
-    match type of Hbr with (if ?b then _ else _) = _ => destruct b eqn:Hb; [discriminate|] end.
-    cbn [ltb Rops] in Hb. apply Rltb_false in Hb. apply Hb.
-    unfold thv. c03_simpl. cbn [eps Rops] in He.
-    replace (r00 + r11 + r22 + 1) with 0 by (unfold c in E; lra). rewrite Rabs_R0. nra. }
-  assert (Hs : sin th = sqrt (1 - c*c)).
-  { unfold th. rewrite sin_acos by lra. f_equal; unfold Rsqr; try ring. }
-  assert (Hspos : 0 < sin th) by (rewrite Hs; apply sqrt_lt_R0; nra).
-  assert (Hss : sin th * sin th = 1 - c*c) by (rewrite Hs; apply sqrt_sqrt; nra).
-  assert (Hcos : cos th = c) by (unfold th; apply cos_acos; lra).
-  rewrite vex_log_general by (rewrite Hthe; fold th; lra).
-  rewrite Hthe. fold th.
-  set (s := sin th) in *.
-  set (w0 := (r21 - r12) / 2 / s * th). set (w1 := (r02 - r20) / 2 / s * th). set (w2 := (r10 - r01) / 2 / s * th).
-  assert (Hnw : norm3 Rops (w0,w1,w2) = th).
-  { c03_simpl. unfold w0, w1, w2.
-    replace (_ + _ + _) with (th*th*(((r21 - r12)/2*((r21 - r12)/2) + (r02 - r20)/2*((r02 - r20)/2) + (r10 - r01)/2*((r10 - r01)/2))/(s*s)))
-      by (field; lra).
-    apply sqrt_sq_scale; [lra|]. rewrite Hn, <- Hss. field. lra. }
-  split; [|split; [exact Hnw | split; [exact Hth0 | unfold th; apply acos_bound]]].
-  unfold trexp_so3, rodrigues3, iszerovec3, unitvec_norm3. rewrite Hnw.
-  cbn [ltb Rops].
-  assert (Hz : Rltb th (thv Rops (k_zero K)) = false).
-  { apply Rltb_false. unfold thv in *. cbn [of_Z mul eps Rops] in *. nra. }
-  assert (Hu : Rltb (thv Rops (k_unit K)) th = true) by (apply Rltb_true; exact Hth).
-  rewrite Hz, Hu. f_equal. unfold rodrigues_th. cbn [cos_ sin_ Rops]. rewrite Hcos. fold s.
-  cbn [div Rops].
-  replace (w0 / th) with ((r21 - r12)/2/s) by (unfold w0; field; lra).
-  replace (w1 / th) with ((r02 - r20)/2/s) by (unfold w1; field; lra).
-  replace (w2 / th) with ((r10 - r01)/2/s) by (unfold w2; field; lra).
-  apply rodrigues_of_log; [exact HR | exact Hss | lra].
-Qed.
 
 
 (* exp(theta * S) for a unit rotational twist S and theta above the zero threshold is the unit-twist tail at theta;
@@ -283,22 +213,6 @@ Proof.
     transitivity ((w0*w0 + w1*w1 + w2*w2)/(n*n)); [field; exact Hn1|]. rewrite <- Hsq. field. exact Hn1.
 Qed.
 
-(* log(exp S) = S in the general branch: S = theta u, u unit, 0 < theta < pi *)
-Theorem logexp_so3_general K (u : V3 R) th :
-  normsq3 Rops u = 1 -> 0 < th < PI ->
-  trlog_so3_branch Rops K (rodrigues_th Rops u th) = BrGen ->
-  trlog_so3_tw Rops K (rodrigues_th Rops u th) = vscale3 Rops th u.
-Proof.
-  intros Hu Hth Hbr. unfold trlog_so3_tw. rewrite Hbr. unfold log_general.
-  assert (Hlt : log_theta Rops (rodrigues_th Rops u th) = th).
-  { unfold log_theta. cbn [acos_ Rops]. transitivity (acos (cos th)); [|apply acos_cos; lra]. f_equal.
-    destruct u as [[u0 u1] u2]. unfold rodrigues_th. cbn [cos_ sin_ Rops]. c03_simpl.
-    generalize (cos th) (sin th). intros c s.
-    transitivity ((3 - 2*(1 - c)*(u0*u0 + u1*u1 + u2*u2) - 1)/(1+1)); [f_equal; ring | rewrite Hu; field]. }
-  rewrite Hlt. assert (Hs : 0 < sin th) by (apply sin_gt_0; lra).
-  destruct u as [[u0 u1] u2]. unfold rodrigues_th. cbn [cos_ sin_ Rops]. revert Hs.
-  generalize (cos th) (sin th). intros c s Hs. c03_simpl. tuple_eq ltac:(field; lra).
-Qed.
 
 
 (* ---------------- V(theta) . Ginv(theta) = I ---------------- *)
